@@ -387,7 +387,19 @@ class FullWorld:
         st = self.state()
         snap = {"L": st["L"], "F": st["F"], "selectedL": self.selected_links("L"), "selectedF": self.selected_links("F"),
                 "dcp": {str(i): {"L": self.dcp_state(i, "L"), "F": self.dcp_state(i, "F")} for i in self.links},
-                "listeners": {n: 0 for n in ("L", "F")}, "pendingAttempts": {n: 0 for n in ("L", "F")}}
+                "listeners": {n: 0 for n in ("L", "F")}, "pendingAttempts": {n: 0 for n in ("L", "F")},
+                "openDialled": {n: 0 for n in ("L", "F")}}
+        # connections this side dialled whose end is still open (connected, not closing)
+        for i, link in self.links.items():
+            if link is None:
+                continue
+            t = link.ends[0]           # end 0 is the dialling end
+            if t.connected and not t.disconnecting:
+                p = getattr(t.protocol, "_wrappedProtocol", t.protocol)
+                c = getattr(p, "_connector", None)
+                for n in ("L", "F"):
+                    if c is not None and c._manager is self.manager(n):
+                        snap["openDialled"][n] += 1
         for port, lp in reactor.listeners.items():
             owner = getattr(lp.factory, "_connector", None)
             for n in ("L", "F"):
@@ -492,7 +504,10 @@ def replay_behaviour(tid, states):
         rested = False
         w.internal.append("run_out: %r" % (e,))
     final = w.state()
-    dilated = all(n in w.api for n in ("L", "F")) and not w.network_cut_all_current()
+    # the statement's proviso excuses a standstill in which the network cut every current connection *and both sides are
+    # waiting for one* (nobody retries, by design); a Manager that still believes it is connected is not waiting
+    excused = w.network_cut_all_current() and all(final[n]["mgr"] == "CONNECTING" for n in ("L", "F"))
+    dilated = all(n in w.api for n in ("L", "F")) and not excused
     internal = w.finish()
     benign = [x for x in internal if any(b in x for b in BENIGN)]
     fin = states[-1]
@@ -589,6 +604,35 @@ def run(prop, tier):
         tlc.run(g + ".tla", g + ".cfg", cwd=wd.path, workers=6, simulate={"num": (60 if quick else 600) // 6, "file": os.path.join(simdir, "tr")},
                 depth=70, seed=seed + 11, timeout=900)
         behaviours += [("tlc-sim", tr) for tr in tlc.read_sim_traces(os.path.join(simdir, "tr"))]
+        # coverage goals: shortest behaviours reaching situations random simulation seldom does; each is then completed
+        # fairly on the real stack (run_out) and judged at rest
+        goals = {
+            "loss_seen_before_accept_L": 'accepts.L # <<>> /\\ links[Head(accepts.L).link].endst.L = "down"',
+            "loss_seen_before_accept_F": 'accepts.F # <<>> /\\ links[Head(accepts.F).link].endst.F = "down"',
+            "cut_before_accept_F": 'accepts.F # <<>> /\\ links[Head(accepts.F).link].endst.F = "cut"',
+            "two_candidates_queued_L": "Len(accepts.L) >= 2",
+            "follower_abandoning": 'mgr.F = "ABANDONING"',
+            "leader_flushing_follower_connecting": 'mgr.L = "FLUSHING" /\\ mgr.F = "CONNECTING"',
+            "follower_lonely": 'mgr.F = "LONELY"',
+            "third_generation": "cgen.L >= 3 /\\ cgen.F >= 3",
+            "stale_accept_queued": "\\E x \\in Sides : accepts[x] # <<>> /\\ Head(accepts[x]).gen < cgen[x]",
+            "reconverged": 'cuts >= 1 /\\ mgr.L = "CONNECTED" /\\ mgr.F = "CONNECTED" /\\ sel.L = sel.F /\\ sel.L > 1',
+        }
+        if prop == "C17":
+            goals = {
+                "stop_while_abandoning": 'stopReq.F /\\ last[1] = "Stop" /\\ mgr.F \\in {"ABANDONING", "STOPPING"} /\\ cuts >= 1',
+                "stop_with_accept_queued": "\\E x \\in Sides : stopReq[x] /\\ last[1] = \"Stop\" /\\ accepts[x] # <<>>",
+                "stop_with_two_links_up": "\\E x \\in Sides : stopReq[x] /\\ last[1] = \"Stop\" /\\ Cardinality({i \\in LinkIds : links[i].endst[x] = \"up\"}) >= 2",
+                "stop_while_flushing": 'stopReq.L /\\ last[1] = "Stop" /\\ cuts >= 1 /\\ sel.L = 0 /\\ mgr.L # "CONNECTING"',
+                "stop_while_lonely": 'stopReq.F /\\ last[1] = "Stop" /\\ cuts >= 1 /\\ sel.F = 0 /\\ cgen.F = 1',
+                "stop_while_dialling": "\\E x \\in Sides : stopReq[x] /\\ last[1] = \"Stop\" /\\ \\E i \\in LinkIds : links[i].phase = \"dial\" /\\ links[i].dialer = x",
+                "stop_connected_both": 'stopReq.L /\\ last[1] = "Stop" /\\ sel.L > 0 /\\ sel.F = sel.L',
+                "both_stop": "stopReq.L /\\ stopReq.F /\\ nlinks >= 1",
+            }
+        wit, unreached = common.witnesses(wd, "DilationL3", dict(MaxLinks=3, MaxCuts=1, Dilaters=both, AllowStop=(both if prop == "C17" else set())),
+                                          goals, "MC_%s_goal" % prop, timeout=900)
+        cov["witness_goals"] = {"reached": [g_ for g_, _ in wit], "unreached": unreached}
+        behaviours += [("tlc-witness:" + g_, tr) for g_, tr in wit]
         for origin, tr in behaviours:
             tid += 1
             w, rec, drift = replay_behaviour(tid, tr)
